@@ -873,6 +873,28 @@ func spread(r *hx.RNG, name string, elems []string, tabs bool) []line {
 	return ls
 }
 
+// spreadRaw renders list elements as one or several header values with odd OWS around
+// the elements; values are NOT trimmed as a whole (direct mode only), so "chunked " survives.
+func spreadRaw(r *hx.RNG, elems []string) []string {
+	var vals []string
+	cur, started := "", false
+	for _, e := range elems {
+		piece := ws(r, true) + e + ws(r, true)
+		if !started {
+			cur, started = piece, true
+		} else if r.Chance(1, 3) {
+			vals = append(vals, cur)
+			cur = piece
+		} else {
+			cur += "," + piece
+		}
+	}
+	if started {
+		vals = append(vals, cur)
+	}
+	return vals
+}
+
 type genOpts struct {
 	proxy bool // valid wire syntax only, no framing headers, no self-owned names
 	resp  bool
@@ -1040,6 +1062,34 @@ func genLines(r *hx.RNG, cfg *hx.Config, o genOpts) []line {
 			{"chunked", "gzip"}, {"Chunked"}, {" chunked "}, {""}, {"chunked,"}, {"identity"}, {"gzip,chunked"}, {"chunked", ""}}
 		cl := cls[r.Intn(len(cls))]
 		te := tes[r.Intn(len(tes))]
+		if r.Chance(1, 3) {
+			// the final transfer-coding as a TOKEN: near misses that contain / end with / start with
+			// "chunked", in single-line, comma-list and multi-line forms, with odd list spacing
+			near := []string{"x-chunked", "unchunked", "notchunked", "chunkedx", "chunked;q=1", "gzip;q=chunked", "CHUNKED",
+				"Chunked", "chunke", "hunked", "chunked chunked", "chunked-", "-chunked", "\"chunked\"", "", "chunkedchunked", "x chunked", "chunked x"}
+			codings := []string{"gzip", "deflate", "identity", "chunked", "compress", "x-chunked", ""}
+			var es []string
+			for i, n := 0, r.Intn(3); i < n; i++ {
+				es = append(es, codings[r.Intn(len(codings))])
+			}
+			switch r.Intn(5) {
+			case 0, 1:
+				es = append(es, near[r.Intn(len(near))])
+				cfg.Count("te-last=near-miss")
+			case 2:
+				es = append(es, "chunked")
+				cfg.Count("te-last=chunked")
+			case 3:
+				es = append(es, "chunked", "") // trailing comma: empty last element
+				cfg.Count("te-last=empty")
+			default:
+				es = append(es, codings[r.Intn(len(codings))])
+			}
+			te = nil
+			for _, l := range spreadRaw(r, es) {
+				te = append(te, l)
+			}
+		}
 		for _, v := range cl {
 			ls = append(ls, line{nameOf("Content-Length"), v})
 		}
